@@ -798,7 +798,8 @@ def gen_step(m: Machine, rng, uid):
                     "ids_np": rng.random() < 0.5}
         if op == "downsample":
             return {"op": op, "uid": uid, "obj": e.uid,
-                    "n": rng.choice([1, 2, 3, max(1, n // 2), n, n + 3])}
+                    "n": rng.choice([1, 2, 3, max(1, n // 2), n, n + 3, 0,
+                                     n - 1 if n > 1 else 1])}
         if op == "motion_filter":
             if n < 2:
                 return None
@@ -835,7 +836,8 @@ def gen_step(m: Machine, rng, uid):
             cs = rng.random() < 0.4
             only = rng.random() < 0.2
             nn = -1 if rng.random() < 0.7 else rng.choice(
-                [1, 2, rng.randint(3, max(3, n)), rng.randint(3, max(3, n))])
+                [1, 2, rng.randint(3, max(3, n)), rng.randint(3, max(3, n)),
+                 n, n + 5])
             return {"op": op, "uid": uid, "obj": e.uid, "ref": ref.uid,
                     "scale": cs, "only_scale": only, "n": nn}
         if op == "project":
